@@ -440,9 +440,8 @@ class IntWP:
                 out[k] = self.merge(cnd, va, vb)
         fr.vars = out
         for (fa, na, va), (fb, nb, vb) in zip(a['outer'], b['outer']):
-            if a_gone != b_gone:
-                fa.vars[na] = vb if a_gone else va
-            elif va == vb:
+            # variables of OTHER frames written through reference parameters stay observable after this frame returns: always merged
+            if va == vb:
                 fa.vars[na] = va
             else:
                 fa.vars[na] = self.merge(cnd, va, vb)
